@@ -36,6 +36,32 @@ TRUSTED = [
 M_LEADING_IF = "c04_leading_if_native_indexerror"
 M_SETX_SETV = "c04_setx_in_setv_value_native"
 M_FIRST_ITER = "c04_first_iterable_inside_generator_function"
+M_DO_SETV = "c04_do_setv_of_a_variable_of_the_form_leaks"
+M_NESTED_SETX = "c04_setx_in_nested_form_does_not_leak"
+
+
+def leak_only(a, b):
+    """the two logs differ only in the namespace snapshots"""
+    if a is None or b is None:
+        return False
+
+    def strip(l):
+        return [e for e in l if e[0] not in ("names", "step")]
+    return strip(a) == strip(b) and a != b
+
+
+def m_do_setv(rec, params):
+    f = rec.get("input", {}).get("features", {})
+    o = rec.get("observed", {})
+    return (rec.get("key") == "log-differs" and f.get("do_setv_own") and f.get("genfn") and f.get("kind") != "for"
+            and f.get("scope") != "class" and o.get("leak_only") is True)
+
+
+def m_nested_setx(rec, params):
+    f = rec.get("input", {}).get("features", {})
+    o = rec.get("observed", {})
+    return (f.get("nested_setx") and o.get("leak_only") is True
+            and ((rec.get("key") == "log-differs" and f.get("genfn")) or rec.get("key") == "strategies-disagree"))
 
 
 def m_leading_if(rec, params):
@@ -101,6 +127,8 @@ def run(chk):
     chk.matchers[M_LEADING_IF] = m_leading_if
     chk.matchers[M_SETX_SETV] = m_setx_setv
     chk.matchers[M_FIRST_ITER] = m_first_iter
+    chk.matchers[M_DO_SETV] = m_do_setv
+    chk.matchers[M_NESTED_SETX] = m_nested_setx
     t0 = time.time()
     chk.prove("Props/C04.v", ["Props/C04.vo"], [])
     sc.coqchk(chk, "HyV.Props.C04")
@@ -172,7 +200,8 @@ def run(chk):
             c = None
         if c is not None:
             obs = {"compile_err": r.get("compile_err"), "exception": r.get("exc"), "log": r.get("log"),
-                   "python": (r.get("py") or "")[:2500], "detail": c[1]}
+                   "python": (r.get("py") or "")[:2500], "detail": c[1],
+                   "leak_only": leak_only(r.get("log"), refs[i][1]["log"])}
             chk.fail(c[0], inp, obs, refs[i][1], "run the program with (defn lg [k v] (print k v) v) prepended")
         elif i in twins:
             rt = res[twins[i]]
@@ -192,6 +221,7 @@ def run(chk):
                     same = sc.tolerate_interpreter_deviation(chk, rt, cp.WATCH, conf, cp.render_program(tw))
             if not same:
                 obs = {"native_log": r.get("log"), "generator_function_log": rt.get("log"),
+                       "leak_only": leak_only(r.get("log"), rt.get("log")),
                        "exception": rt.get("exc") or rt.get("compile_err"), "python": (rt.get("py") or "")[:2500]}
                 chk.fail("strategies-disagree", inp, obs, "the same log from both compilation strategies",
                          "add `:do 0` as last clause to force the generator-function strategy")
